@@ -97,9 +97,9 @@ def gen_scenarios(c, nref, lastwait, nspawn):
                 add(kind, {"phase": ph}, rng.choice(["late", "early"]), sig)
         for sig in SIGNALS:
             k += 1
-            scs.append(cases.sc_linger(f"s{k:04d}", sig, linger=rng.choice([3.0, 4.0, 5.0])))
+            scs.append(cases.sc_linger(f"s{k:04d}", sig))
             k += 1
-            scs.append(cases.sc_silent_eoj(f"s{k:04d}", sig, silence=rng.choice([3.0, 4.0])))
+            scs.append(cases.sc_silent_eoj(f"s{k:04d}", sig, extra=rng.choice([2.0, 3.0])))
         for i in range(12):
             k += 1
             scs.append(cases.sc_frozen_orphan(f"s{k:04d}", nspawn + (i % 3), SIGNALS[i % 2], wait=rng.choice([1.5, 2.5, 4.0])))
@@ -191,6 +191,13 @@ def oracle(c, sc, out):
         if states.get(t, {}).get("state") != "DONE" or not out["snapshot"][str(t)]["done"]:
             c.violation("C11:not-done-after-restart", f"job {t} is {states.get(t, {}).get('state')} after the restart "
                         f"(marker: {out['snapshot'][str(t)]['done']})", data)
+            verdict = "violation"
+        # what the only execution of the body printed is part of the results of the job
+        ran = [r["pid"] for r in cases.body_rows(rows, t) if r["kind"] == "begin"]
+        outtxt = out["snapshot"][str(t)].get("out")
+        if len(ran) == 1 and outtxt is not None and f"output of {t} {ran[0]}" not in outtxt:
+            c.violation("C11:output-lost-by-noop-relaunch", f"job {t} ran once (process {ran[0]}) but its standard output is "
+                        f"{outtxt!r}: a later launch that did not run the body truncated <name>.out", data)
             verdict = "violation"
         if cases.count_begins(rows, t) == 0:
             c.violation("C11:done-without-run", f"job {t} is reported DONE but its body never ran", data)
